@@ -1,6 +1,39 @@
 import OV.Model.C05Order
 import OV.Model.C05Shape
-/-! Helper lemmas for `OV/Props/C05.lean`. -/
+import OV.Model.C05Linalg
+import Mathlib.Order.MinMax
+import Mathlib.Order.Lattice
+/-! Helper lemmas for `OV/Props/C05.lean` (order family, pads arithmetic). -/
 namespace OV.Lemmas.C05
+open OV.C05.Order
+
+/-- Folding an associative operation: the accumulator can be pulled out. -/
+theorem foldl_assoc {α : Type} (op : α → α → α) (hassoc : ∀ a b c, op (op a b) c = op a (op b c))
+    (l : List α) (x v : α) : l.foldl op (op x v) = op x (l.foldl op v) := by
+  induction l generalizing v with
+  | nil => rfl
+  | cons w l ih => simp only [List.foldl_cons, hassoc, ih]
+
+/-- `foldl op x l` in terms of `flatReduce op l`. -/
+theorem foldl_eq_flatReduce {α : Type} (op : α → α → α) (hassoc : ∀ a b c, op (op a b) c = op a (op b c))
+    (l : List α) (x : α) :
+    l.foldl op x = match flatReduce op l with | none => x | some m => op x m := by
+  cases l with
+  | nil => rfl
+  | cons v l => simp only [List.foldl_cons, flatReduce, foldl_assoc op hassoc]
+
+/-- `flatReduce` of an append when both sides are non-empty. -/
+theorem flatReduce_append {α : Type} (op : α → α → α) (hassoc : ∀ a b c, op (op a b) c = op a (op b c))
+    (l1 l2 : List α) (a b : α) (h1 : flatReduce op l1 = some a) (h2 : flatReduce op l2 = some b) :
+    flatReduce op (l1 ++ l2) = some (op a b) := by
+  cases l1 with
+  | nil => simp [flatReduce] at h1
+  | cons v l1 =>
+    cases l2 with
+    | nil => simp [flatReduce] at h2
+    | cons w l2 =>
+      simp only [flatReduce, Option.some.injEq] at h1 h2
+      simp only [List.cons_append, flatReduce, List.foldl_append, List.foldl_cons, Option.some.injEq]
+      rw [h1, foldl_assoc op hassoc, h2]
 
 end OV.Lemmas.C05
